@@ -252,7 +252,8 @@ class C01(Prop):
             for o in drop_ops[:2]:
                 texts.append(self.OP_TEXT[o])
                 texts.append(f"f0({self.OP_TEXT[o]})")
-            texts += [mito.gen_tracer(rng, depth, "any", False) for _ in range(2)]
+            anys = [mito.gen_tracer(rng, depth, "any", False) for _ in range(2)]    # may be an opaque constant: math only
+            texts += anys
             if names:
                 texts.append(f"{rng.choice(names)} if {rng.choice(names)} else {rng.choice(names)}")
             rng.shuffle(texts)
@@ -262,6 +263,8 @@ class C01(Prop):
                     lines.append(mito.dg_line(src))
                 elif src.startswith(tuple(t + "(" for t in tnames)):
                     lines.append(mito.met_line(rng.choice(["auto", "tool"]), src))
+                elif src in anys:
+                    lines.append(mito.met_line("math", src))
                 else:
                     lines.append(mito.met_line(rng.choice(["math", "math", "auto", "logic"]), src))
         return {"lines": lines, "note": "retable"}
